@@ -123,6 +123,8 @@ def execute(c):
     schema, dd = _G["schema"], _G["dd"]
     rows = c["rows"]
     df = pd.DataFrame({"onset": [r[0] for r in rows], "HED": [r[1] for r in rows]})
+    if c.get("n", 0) % 3 == 1:
+        df.index = [11 + 2 * i for i in range(len(rows))]       # row labels that are not 0..n-1 (a filtered / re-read table)
     try:
         em = EventManager(TabularInput(df), schema, extra_defs=dd)
         onsets = [float(x) for x in em.onsets]
